@@ -20,11 +20,12 @@ import (
 // c30Case is a self-contained replay: one behaviour of spec/Cli.tla (family c30) under
 // the refinement derived from (seed, idx).
 type c30Case struct {
-	Beh   behav.Behaviour `json:"beh"`
-	Seed  int64           `json:"seed"`
-	Idx   int             `json:"idx"`
-	Slots int             `json:"slots"`
-	Nodes int             `json:"nodes"`
+	Beh      behav.Behaviour `json:"beh"`
+	Seed     int64           `json:"seed"`
+	Idx      int             `json:"idx"`
+	Slots    int             `json:"slots"`
+	Nodes    int             `json:"nodes"`
+	Replicas int             `json:"replicas"`
 	// Corrupt is the binding self-test: "expect" drops one expected bit, "nocsv" etc.
 	Corrupt string `json:"corrupt,omitempty"`
 }
@@ -255,6 +256,9 @@ func runC30(c *c30Case, e *env, cov func(string)) (fail *behav.Failure, inconclu
 	if err != nil {
 		return nil, "reading the source: " + err.Error()
 	}
+	if src.replicas != "" {
+		return nil, "source replicas are incomplete: " + src.replicas
+	}
 	if c.Corrupt != "expect" {
 		if m, x := src.bits.diff(want); len(m)+len(x) > 0 {
 			return nil, fmt.Sprintf("source field differs from the specification after population: missing %s extra %s", fmtPairs(m), fmtPairs(x))
@@ -263,6 +267,7 @@ func runC30(c *c30Case, e *env, cov func(string)) (fail *behav.Failure, inconclu
 	if cov != nil {
 		cov("mode:" + mode)
 		cov(fmt.Sprintf("nodes:%d", len(e.nodes)))
+		cov(fmt.Sprintf("replicas:%d", c.Replicas))
 		cov("target:" + target)
 		cov("buf:" + strconv.Itoa(buf))
 		if len(behav.ToList(last["noFragment"])) > 0 {
@@ -372,6 +377,14 @@ func runC30(c *c30Case, e *env, cov func(string)) (fail *behav.Failure, inconclu
 	if src.problem != "" {
 		return nil, "read paths of the source disagree: " + src.problem
 	}
+	if dst.replicas == "" {
+		if dst.replicas, err = e.ownersExportAgree(dstIndex, dstField); err != nil {
+			return nil, "exporting the target at every owner: " + err.Error()
+		}
+	}
+	if dst.replicas != "" {
+		return mk("replica_differs", "after the import command the owners of a shard of the target do not all hold its bits: "+dst.replicas, nil), ""
+	}
 	if dst.problem != "" {
 		return mk("target_reads_disagree", dst.problem, nil), ""
 	}
@@ -463,6 +476,7 @@ func TestC30(t *testing.T) {
 	}()
 	slots := behav.EnvInt("VERIF_SLOTS", 2)
 	nodes := behav.EnvInt("VERIF_NODES", 1)
+	replicas := behav.EnvInt("VERIF_REPLICAS", 1)
 	seed := behav.Seed()
 	var cases []*c30Case
 	if raw, ok := behav.LoadReplay(); ok {
@@ -475,15 +489,18 @@ func TestC30(t *testing.T) {
 		if c.Nodes > 0 {
 			nodes = c.Nodes
 		}
+		if c.Replicas > 0 {
+			replicas = c.Replicas
+		}
 	} else {
 		corrupt := os.Getenv("VERIF_CORRUPT")
 		for i, b := range behav.LoadEnv() {
-			cases = append(cases, &c30Case{Beh: b, Seed: seed, Idx: i, Slots: slots, Nodes: nodes, Corrupt: corrupt})
+			cases = append(cases, &c30Case{Beh: b, Seed: seed, Idx: i, Slots: slots, Nodes: nodes, Replicas: replicas, Corrupt: corrupt})
 		}
 	}
 	var e *env
 	var err error
-	if pv, stack := behav.Protect(func() { e, err = startEnv(t, seed, slots, nodes) }); pv != nil || err != nil {
+	if pv, stack := behav.Protect(func() { e, err = startEnv(t, seed, slots, nodes, replicas) }); pv != nil || err != nil {
 		res.SetInconclusive(fmt.Sprintf("starting the server: %v %v\n%s", err, pv, stack))
 		return
 	}
